@@ -17,7 +17,7 @@ from .values import (NamedTupleClsV, PropV, IterV, SV, Args, BoolTermV, BoundV, 
 EXTERNAL_MODULES = {'asyncio', 'kiwipy', 'copy', 'inspect', 'functools', 'sys', 'os', 'pickle', 'yaml', 'uuid',
                     'time', 'traceback', 'logging', 'warnings', 'importlib', 'fnmatch', 'errno', 'enum', 're',
                     'collections', 'contextlib', 'abc', 'json', 'types', 'typing', 'tblib', 'nest_asyncio', 'concurrent',
-                    'aio_pika'}
+                    'aio_pika', 'contextvars', 'aiocontextvars'}
 
 BUILTIN_FUNCS = {'len', 'isinstance', 'issubclass', 'callable', 'getattr', 'setattr', 'hasattr', 'str', 'int', 'bool',
                  'list', 'dict', 'tuple', 'set', 'type', 'any', 'all', 'dir', 'range', 'super', 'id', 'iter', 'next',
